@@ -149,6 +149,25 @@ def gen_targeted_tie_cases(rng) -> list[dict]:
         add(A, 3, 1, ("ho", 0.0, 100, 1.0, 3), 1e-3, "setting:tolerance=1")
         add(A, 2, 1, ("ho", 0.0, 100, 1e-8, 6), 1e-3, "setting:order=6")
         add(A, 3, 2, ("ho", 1e-3, 100, 1e-8, 3), 1e-6, "setting:rel_epsilon=1e-3")
+    # roots Fraction(r / multiplier) from multipliers with many digits / roots whose exponent is a binary32 number, on ill-conditioned
+    # PSD inputs: the model (and the eigenpair checker) use the REQUESTED root
+    for (p, q) in mfh.awkward_roots(rng, 12):
+        n = rng.choice([2, 3, 4, 6, 8])
+        scale = 10 ** rng.uniform(-3, 3)
+        cond = 10 ** rng.uniform(4, 8)
+        A = mfh.make_sym(mfh.spectrum(rng, n, "psd", scale, cond), rng.randrange(1 << 40))
+        add(A, p, q, ("eigen", k % 2 == 0), scale / cond * 0.1, "root:awkward")
+        k += 1
+    for (p, q) in mfh.awkward_roots(rng, 4):
+        scale = 10 ** rng.uniform(-3, 3)
+        add(mfh.structured(rng, 4, "diag-nonascending", scale), p, q, ("eigen", False), scale * 1e-7, "root:awkward", is_diag=True)
+        add(mfh.make_sym([scale * 1e-5], 0), p, q, ("eigen", False), scale * 1e-9, "root:awkward")
+    # Newton with a tolerance below the rounding floor of float64: runs to max_iterations unless the error hits exactly 0
+    for n in (2, 3, 5, 8):
+        for p in (2, 4):
+            scale = 10 ** rng.uniform(-3, 3)
+            A = mfh.make_sym(mfh.spectrum(rng, n, "psd", scale, 10 ** rng.uniform(0, 3)), rng.randrange(1 << 40))
+            add(A, p, 1, ("newton", 30, rng.choice([1e-17, 1e-18])), scale * 1e-3, "noisefloor")
     # tolerance below the rounding floor (the private function's own default is 1e-20): the loop ends with EARLY_STOP; the iteration at
     # which stagnation is detected is decided by rounding noise, so these cases are compared on X only
     for n in (2, 3, 5, 8):
@@ -170,6 +189,34 @@ def gen_targeted_tie_cases(rng) -> list[dict]:
             add(A, 4, 1, ("eigen", False, "cpu"), scale * 1e-3, "offload:cpu")
             add(A, 4, 1, ("eigen", True, "cpu"), scale * 1e-3, "offload:cpu")
     return cases
+
+
+def eigpair_check_term(case: dict, obs: dict) -> str | None:
+    """eigpair_checkb on the implementation's X with the recorded eigenpairs and the REQUESTED root (eigen configurations, PSD input)."""
+    import torch
+    if (obs["kind"] != "ok" or case["cfg"][0] != "eigen" or case["is_diag"] or mfh.case_n(case) < 2 or case["p"] <= 0 or case["eps"] <= 0
+            or not obs["eigh"] or case["tag"].startswith(("indef", "nonpositive"))):
+        return None
+    n = mfh.case_n(case)
+    X = obs["X"].reshape(n, n)
+    if not bool(torch.isfinite(X).all()):
+        return "false"
+    _, L, Q = obs["eigh"][-1]
+    lmin, lmax = max(float(L.min()), 0.0), float(L.max())
+    if case["cfg"][1]:
+        cond = lmax / max(lmin, case["eps"])
+    else:
+        cond = (lmax + case["eps"]) / (lmin + case["eps"])
+    tol = max(1e-7, 1e3 * n * U["float64"] * cond ** max(1.0, case["q"] / case["p"]))
+    if tol > 1e-5:
+        return None
+    return (f"(eigpair_checkb fo {n}%nat {mfh.coq_Zlit(case['p'])} {case['q']}%positive {coq_float(case['eps'])} {mfh.coq_bool(bool(case['cfg'][1]))} "
+            f"(of_list fo {mfh.coq_vec(L.tolist())}) (rows {mfh.coq_rows(Q.tolist())}) (rows {mfh.coq_rows(X.tolist())}) {coq_float(tol)})")
+
+
+def conv_flag_term(n: int, M, flag: str, err: float, tol: float) -> str:
+    """conv_flag_checkb on what the implementation returned (M exactly converted to binary64) against the CONFIGURED tolerance."""
+    return f"(conv_flag_checkb fo {n}%nat (rows {mfh.coq_rows(M.double().tolist())}) {flag} {coq_float(err)} {coq_float(tol)})"
 
 
 def spectrum_of(case: dict):
@@ -428,13 +475,13 @@ def converged_one(A, p: int, q: int, eps: float, solver: str, tol: float, max_it
                                                                            tolerance=tol, order=order)
     except Exception as ex:  # noqa
         return {"outcome": "raise:" + type(ex).__name__}
-    r: dict = {"outcome": "ok:" + flag.name, "iterations": int(it), "reported_error": float(err)}
+    r: dict = {"outcome": "ok:" + flag.name, "iterations": int(it), "reported_error": float(err), "_M": M.detach().clone()}
     if flag.name != "CONVERGED":
         return r
     I = torch.eye(n, dtype=tdt)
     Ar = torch.add(Ad, I, alpha=eps)
     r["M_dev"] = float((M - I).abs().max())
-    r["M_limit"] = tol * (1 + 1e-3) + 4 * u
+    r["M_limit"] = tol * (1 + 1e-6)          # no rounding slack: the routine's own test is on exactly this quantity, so sub-epsilon tolerances count too
     ev = torch.linalg.eigvalsh(Ar.double())
     cond = float(ev[-1] / ev[0]) if float(ev[0]) > 0 else float("inf")
     r["cond"] = cond
@@ -457,7 +504,7 @@ def gen_converged_inputs(rng, thorough: bool):
                 for eps_rel in (0.0, 1e-12, 1e-6):
                     dtype = ("float32", "float64")[k % 2]
                     k += 1
-                    tol = (1e-6, 1e-6, 1e-4, 1e-8)[k % 4]
+                    tol = rng.choice([1e-6, 1e-6, 1e-4, 1e-8, 1e-9] if dtype == "float32" else [1e-6, 1e-8, 1e-4, 1e-12, 1e-17])
                     eps = eps_rel * scale if eps_rel == 1e-6 else eps_rel
                     out.append((name, A0 * scale, p, 1, eps, "newton", tol, 100, 0, dtype))
         # higher order: three integer roots per matrix + one fractional
@@ -534,6 +581,18 @@ def gen_accuracy_inputs(rng, thorough: bool):
         A = mfh.make_sym(mfh.spectrum(rng, 24, "psd", scale, 10 ** rng.uniform(2, 8 if cfg[0] == "eigen" else 5)), rng.randrange(1 << 40))
         out.append((A, *int_roots[k % 4], cfg, scale * 1e-6 if cfg[0] != "eigen" else scale * 1e-9, "float64", True, False, "psd-n24-mp"))
         k += 1
+    # roots Fraction(r / multiplier) from multipliers with many digits, and roots whose exponent is a binary32 number, against the 50-digit
+    # reference AT THE REQUESTED ROOT, float64, cond 1e4..1e8 (eigen configurations; the iterative solvers never get such roots)
+    for j, (p, q) in enumerate(mfh.awkward_roots(rng, 24 if thorough else 14)):
+        n = (2, 4, 8, 12)[j % 4]
+        scale = 10 ** rng.uniform(-3, 3)
+        cond = 10 ** rng.uniform(4, 8)
+        A = mfh.make_sym(mfh.spectrum(rng, n, "psd", scale, cond), rng.randrange(1 << 40))
+        out.append((A, p, q, ("eigen", j % 2 == 0), scale / cond * 0.1, "float64", True, False, "root:awkward"))
+    for j, (p, q) in enumerate(mfh.awkward_roots(rng, 4)):
+        scale = 10 ** rng.uniform(-3, 3)
+        out.append((mfh.structured(rng, 4, "diag-nonascending", scale), p, q, ("eigen", False), scale * 1e-7, "float64", True, True, "root:awkward"))
+        out.append((mfh.make_sym([scale * 1e-5], 0), p, q, ("eigen", False), scale * 1e-9, "float64", True, False, "root:awkward"))
     # fast paths: diagonal flag and 1x1 against the same references
     for dtype in ("float64", "float32"):
         for n in (1, 4, 16):
@@ -581,10 +640,22 @@ def run(ck: Check) -> None:
             xonly_col.append("false")
     chk_terms = [c10_check_term(c, o) for c, o in zip(cases, observations)]
     chk_col = [t if t is not None else "true" for t in chk_terms]
-    agree_s, query_s, frag_s, xonly_s, chk_s = mfh.eval_bool_lists(ck, "c10", [agree_col, query_col, frag_col, xonly_col, chk_col], per_file=12)
+    eig_terms = [eigpair_check_term(c, o) for c, o in zip(cases, observations)]
+    conv_terms = []
+    for c, o in zip(cases, observations):
+        if o["kind"] == "ok" and o["iter"] and o.get("iter_M") and c["cfg"][0] in ("newton", "ho"):
+            tolc = c["cfg"][2] if c["cfg"][0] == "newton" else c["cfg"][3]
+            fl, _, err = o["iter"][-1]
+            conv_terms.append(conv_flag_term(mfh.case_n(c), o["iter_M"][-1], fl, err if c["cfg"][0] == "newton" else 0.0, tolc))
+        else:
+            conv_terms.append(None)
+    agree_s, query_s, frag_s, xonly_s, chk_s, eig_s, conv_s = mfh.eval_bool_lists(
+        ck, "c10", [agree_col, query_col, frag_col, xonly_col, chk_col, [t or "true" for t in eig_terms], [t or "true" for t in conv_terms]], per_file=12)
     inconclusive = [i for i in range(len(cases)) if agree_s[i] != "T" and frag_s[i] == "T" and (xonly_s[i] == "T" or observations[i]["kind"] == "raise")]
     bad = [i for i in range(len(cases)) if (agree_s[i] != "T" or query_s[i] != "T") and i not in inconclusive]
     chk_fail = [i for i in range(len(cases)) if chk_terms[i] is not None and chk_s[i] != "T"]
+    eig_fail = [i for i in range(len(cases)) if eig_terms[i] is not None and eig_s[i] != "T"]
+    conv_fail = [i for i in range(len(cases)) if conv_terms[i] is not None and conv_s[i] != "T"]
 
     def rep(i):
         c, o = cases[i], observations[i]
@@ -592,13 +663,26 @@ def run(ck: Check) -> None:
                 "impl_outcome": o["kind"] + (":" + o["exc"] if o["kind"] == "raise" else ""), "impl_status": o["iter"],
                 "impl_X": o["X"].tolist() if o["kind"] == "ok" else None}
 
+    if conv_fail:
+        i = min(conv_fail, key=lambda i: (mfh.case_n(cases[i]), i))
+        c = cases[i]
+        ck.report(None, f"{c['cfg'][0]} solver reports {observations[i]['iter'][-1]} for the configured tolerance {c['cfg'][2] if c['cfg'][0] == 'newton' else c['cfg'][3]:g}: "
+                        f"CONVERGED although |M - I|max of the returned coupled matrix (or the returned error) exceeds the tolerance (conv_flag_checkb false) on a "
+                        f"{mfh.case_n(c)}x{mfh.case_n(c)} {c['tag']} input, root {c['p']}/{c['q']}",
+                  {"kind": "property-fails", "predicate": "conv_flag_checkb", "n_failing": len(conv_fail), "impl_M": observations[i]["iter_M"][-1].tolist(), **rep(i)})
+    if eig_fail:
+        i = min(eig_fail, key=lambda i: (mfh.case_n(cases[i]), i))
+        c = cases[i]
+        ck.report(None, f"returned matrix is not (A + eps I)^(-1/r) for the REQUESTED root r = {c['p']}/{c['q']} (eigpair_checkb false: on a recorded eigenpair X v differs from "
+                        f"d^e v) on a {mfh.case_n(c)}x{mfh.case_n(c)} {c['tag']} input, cfg {c['cfg']}",
+                  {"kind": "property-fails", "predicate": "eigpair_checkb", "n_failing": len(eig_fail), "model_agrees": i not in bad, **rep(i)})
     if chk_fail:
         i = min(chk_fail, key=lambda i: (mfh.case_n(cases[i]), i))
         c = cases[i]
         ck.report(None, f"returned matrix is not the inverse {c['p']}/{c['q']}-th root within the solver's promise (C10_checkb false: |X^p (A+eps I)^q - I|max too large, "
                         f"non-finite or asymmetric) on a {mfh.case_n(c)}x{mfh.case_n(c)} {c['tag']} input, cfg {c['cfg']}, is_diagonal={c['is_diag']}, status {observations[i]['iter']}",
                   {"kind": "property-fails", "predicate": "C10_checkb", "n_failing": len(chk_fail), "model_agrees": i not in bad, **rep(i)})
-    elif bad:
+    elif bad and not eig_fail and not conv_fail:
         i = min(bad, key=lambda i: (mfh.case_n(cases[i]), i))
         c = cases[i]
         ck.report(None, f"model/implementation correspondence broken ({len(bad)} cases; first: shape {c['shape']} root {c['p']}/{c['q']} cfg {c['cfg']} is_diagonal={c['is_diag']}, "
@@ -696,15 +780,28 @@ def run(ck: Check) -> None:
     c_viol = []
     c_worst = {"M_dev_over_tol": 0.0, "residual_c": 0.0}
     c_converged = 0
-    for (name, A, p, q, eps, solver, tol, mi, order, dtype) in cinputs:
+    c_terms, c_term_info = [], []
+    c_subeps = 0
+    for ci, (name, A, p, q, eps, solver, tol, mi, order, dtype) in enumerate(cinputs):
         r = converged_one(A, p, q, eps, solver, tol, mi, order, dtype)
         key = solver + " " + dtype + " " + r["outcome"]
         c_out[key] = c_out.get(key, 0) + 1
+        Mret = r.pop("_M", None)
+        subeps = tol <= 20 * U[dtype]
+        c_subeps += int(subeps and Mret is not None)
+        pyfail = r["outcome"] == "ok:CONVERGED" and (not (r["M_dev"] <= r["M_limit"]) or (solver == "newton" and not (r["reported_error"] <= r["M_limit"])))
+        if Mret is not None and (subeps or pyfail or ci % 8 == 0):
+            # the certified checker decides, in coqc, on what the routine returned: CONVERGED => |M - I|max <= configured tolerance (and the returned error, Newton)
+            c_terms.append(conv_flag_term(A.shape[0], Mret, r["outcome"][3:], r["reported_error"] if solver == "newton" else 0.0, tol * (1 + 1e-6)))
+            c_term_info.append((A.shape[0], {"kind": "converged-flag-clause", "matrix": name, "dtype": dtype, "solver": solver, "A": A.tolist(), "p": p, "q": q, "eps": eps,
+                                             "tolerance": tol, "max_iterations": mi, "order": order, "measured": r, "returned_M": Mret.tolist()}))
         if r["outcome"] != "ok:CONVERGED":
             continue
         c_converged += 1
         what = None
-        if not (r["M_dev"] <= r["M_limit"]):
+        if solver == "newton" and not (r["reported_error"] <= r["M_limit"]):
+            what = f"reports CONVERGED after {r['iterations']} iterations with a returned error {r['reported_error']:.3e} > configured tolerance {tol:g}"
+        elif not (r["M_dev"] <= r["M_limit"]):
             what = (f"reports CONVERGED after {r['iterations']} iterations (reported error {r['reported_error']:.2e}) but max|M - I| of the returned coupled matrix is "
                     f"{r['M_dev']:.3e} > tolerance {tol:g}")
         elif "residual" in r and not (r["residual"] <= r["residual_limit"]):
@@ -716,7 +813,17 @@ def run(ck: Check) -> None:
         if what:
             c_viol.append((A.shape[0], what, {"kind": "converged-flag-clause", "matrix": name, "dtype": dtype, "solver": solver, "A": A.tolist(), "p": p, "q": q, "eps": eps,
                                               "tolerance": tol, "max_iterations": mi, "order": order, "measured": r}))
-    if c_viol:
+    c_cert = mfh.eval_bool_lists(ck, "c10v", [c_terms], per_file=150)[0] if c_terms else ""
+    cert_fail = [info for info, b in zip(c_term_info, c_cert) if b != "T"]
+    if cert_fail:
+        cert_fail.sort(key=lambda v: (v[0], v[1]["p"]))
+        nA, robj = cert_fail[0]
+        robj["n_failing"] = len(cert_fail)
+        robj["decided_by"] = "conv_flag_checkb evaluated in coqc on the returned coupled matrix, flag and error"
+        ck.report(None, f"{robj['solver']} solver ({robj['dtype']}, {robj['matrix']}, n={nA}, root {robj['p']}/{robj['q']}) reports CONVERGED after {robj['measured']['iterations']} iterations for the "
+                        f"configured tolerance {robj['tolerance']:g}, but |M - I|max of the returned coupled matrix is {robj['measured'].get('M_dev', float('nan')):.3e} "
+                        f"(returned error {robj['measured']['reported_error']:.3e}): conv_flag_checkb false", robj)
+    elif c_viol:
         c_viol.sort(key=lambda v: (0 if v[2]["measured"].get("cond", float("inf")) < 1e12 else 1, v[0], v[2]["p"]))   # decidable by the Coq checker first, then smallest
         nA, what, robj = c_viol[0]
         if robj["q"] == 1 and robj["measured"].get("cond", float("inf")) < 1e12:
@@ -756,6 +863,8 @@ def run(ck: Check) -> None:
         "inconclusive_rule": "flag/iteration count differ while X agrees and a decision of the model (error vs tolerance, 1.2x growth, stagnation, 0.1 guard) compared two numbers within 2^-20 relative",
         "checker_evaluated_on": sum(1 for t in chk_terms if t is not None),
         "checker_failures": len(chk_fail),
+        "eigpair_checker_evaluated_on": sum(1 for t in eig_terms if t is not None), "eigpair_checker_failures": len(eig_fail),
+        "conv_flag_checker_evaluated_on": sum(1 for t in conv_terms if t is not None), "conv_flag_checker_failures": len(conv_fail),
         "higher_order_guard_clause": {
             "what": "direct test of the real code, float32 and float64, cond 1e4..1e12, rank-deficient with tiny eps, n 4..64, orders 2..4, integer roots: whenever the routine returns, "
                     "max|A_ridge X^p - I| recomputed from the returned X in the same dtype must be <= 0.1 (+1e-3 relative) and equal the reported true_error",
@@ -765,9 +874,10 @@ def run(ck: Check) -> None:
         "converged_flag_clause": {
             "what": "direct test of the real code: both iterative solvers (private 5-tuple) on structured families (rank one with entries +-a, equicorrelation, block correlation, "
                     "constant-diagonal Toeplitz / circulant, identities, repeated diagonals) and random PSD inputs, every integer root 1..8 (Newton) / integer + fractional (higher order), "
-                    "eps in {0, 1e-12, 1e-6*scale}, scales 1e-3..1e3, float32 and float64; whenever CONVERGED is reported: max|M - I| of the returned M <= tol*(1+1e-3)+4u and "
+                    "eps in {0, 1e-12, 1e-6*scale}, scales 1e-3..1e3, float32 and float64; whenever CONVERGED is reported: max|M - I| of the returned M <= tol (no rounding slack, tolerances below machine epsilon included) and "
                     f"max|A_ridge X^p - I| of the returned X <= tol*(1+1e-3) + {CONV_C}*p*n*u*cond, both recomputed in the working dtype",
             "inputs": len(cinputs), "reported_converged": c_converged, "violations": len(c_viol), "outcomes": dict(sorted(c_out.items())),
+            "tolerance_at_or_below_20u": c_subeps, "decided_by_conv_flag_checkb_in_coqc": len(c_terms), "conv_flag_checkb_failures": len(cert_fail),
             "worst_M_dev_over_tolerance": float(f"{c_worst['M_dev_over_tol']:.4g}"), "worst_residual_constant": float(f"{c_worst['residual_c']:.4g}"),
         },
         "MEASURED_not_proved": {
@@ -824,6 +934,12 @@ def run(ck: Check) -> None:
         "accuracy/root_fractional": sum(1 for a in acc if 1 < a[2] <= 1000),
         "accuracy/root=Fraction(r/exponent_multiplier)": sum(1 for a in acc if a[2] > 1000),
         "accuracy/diagonal_flag": sum(1 for a in acc if a[7]),
+        "accuracy/root_awkward_multiplier_or_binary32_exponent(float64, cond 1e4..1e8)": sum(1 for a in acc if a[8] == "root:awkward"),
+        "tie/root_awkward_multiplier_or_binary32_exponent": sum(1 for c in cases if c["tag"] == "root:awkward"),
+        "tie/newton_tolerance_below_float64_epsilon": sum(1 for c in cases if c["tag"] == "noisefloor" and c["cfg"][0] == "newton"),
+        "tie/conv_flag_checkb_on_implementation_M": sum(1 for t in conv_terms if t is not None),
+        "tie/eigpair_checkb_on_implementation_X": sum(1 for t in eig_terms if t is not None),
+        "converged_clause/tolerance<=20u": c_subeps,
         "guard_clause/float32": sum(1 for g in ginputs if g[7] == "float32"),
         "guard_clause/float64": sum(1 for g in ginputs if g[7] == "float64"),
         "guard_clause/n>=32": sum(1 for g in ginputs if g[0].shape[0] >= 32),
